@@ -3,6 +3,7 @@
    N, Z, Q stay extracted inductives.  No Extract Constant. *)
 Require Extraction.
 Require Import ExtrOcamlBasic.
-From KV Require Import Model.Triu Model.Greedy Model.Kaisa.
+From KV Require Import Model.Triu Model.Greedy Model.Kaisa Model.Trace.
 Extraction "model.ml" triu_idx fill_index_matrix sym_comm_outcome
-  greedy greedy_ok_b greedy_prop_b kaisa_view.
+  greedy greedy_ok_b greedy_prop_b kaisa_view
+  Trace.run.
